@@ -1,6 +1,6 @@
 (* C13 - Parallel processes are transparent and always shut down cleanly (PARTIAL).
    Models: Model/Sched.v (the engine only starts a computation on an idle process; the result is collected exactly
-   once when the update is applied: C01) and Model/Parallel.v (the command protocol: pending safeguard, end, end twice).
+   once when the update is applied: C01) and Model/Parallel.v (the command protocol: pending safeguard, end, end twice, end with a result in flight).
    In Model/Sched.v the update is a function of what the process is handed at invocation, so when it is evaluated
    (at once, or in a worker and collected later) cannot matter: transparency is by construction there, and is decided on
    the implementation by serial/parallel twin runs.  That a worker told to stop exits and is reaped, pipe liveness and
@@ -93,11 +93,35 @@ Theorem C13_send_while_pending_refused :
 Proof. exact @send_while_pending_refused. Qed.
 Print Assumptions C13_send_while_pending_refused.
 
-(* known finding K2: ending a process whose update is still in flight is refused and the worker stays alive *)
-Theorem C13_delete_inflight_refuted :
-  prun fresh [CSend; CEnd] = inr StillPending.
-Proof. exact @delete_inflight_refuted. Qed.
-Print Assumptions C13_delete_inflight_refuted.
+(* a process whose update is still in flight can be ended (deleted, divided away): the worker is told to stop and the result end() collected is still handed over (repairs b038411, f5e138d; formerly known finding K2) *)
+Theorem C13_delete_inflight_ok :
+  prun fresh [CSend; CEnd] =
+         inl {| pending := false; ended := true; alive := false; stash := true |} /\
+         prun fresh [CSend; CEnd; CGet] =
+         inl {| pending := false; ended := true; alive := false; stash := false |}.
+Proof. exact @delete_inflight_ok. Qed.
+Print Assumptions C13_delete_inflight_ok.
+
+(* the pinned code: end() with an update in flight was refused and the worker stayed alive *)
+Theorem C13_delete_inflight_refuted_pinned :
+  prun_pinned fresh [CSend; CEnd] = inr StillPending.
+Proof. exact @delete_inflight_refuted_pinned. Qed.
+Print Assumptions C13_delete_inflight_refuted_pinned.
+
+(* end() never fails, whatever the state; afterwards the process is ended and a running worker has been told to stop *)
+Theorem C13_end_total :
+  forall s : pp,
+         exists s' : pp,
+           pstep s CEnd = inl s' /\
+           ended s' = true /\ (ended s = false -> alive s' = false /\ pending s' = false).
+Proof. exact @end_total. Qed.
+Print Assumptions C13_end_total.
+
+(* on every reachable state an ended process has no worker that was not told to stop *)
+Theorem C13_ended_never_alive :
+  forall (cs : list pcmd) (s : pp), prun fresh cs = inl s -> ended s = true -> alive s = false.
+Proof. exact @ended_never_alive. Qed.
+Print Assumptions C13_ended_never_alive.
 
 (* structural updates around a parallel process: reading its schema (view rebuild), asking is_step() (re-registration) and moving its node never fail and change nothing, whatever its state - in particular while an update is in flight *)
 Theorem C13_quiet_run :
